@@ -71,17 +71,19 @@ class ByteArr:
         return self.length
 
     def _clamp(self, eng, v, what):
-        """CPython slice index adjustment for a non-negative index"""
+        """CPython slice index adjustment"""
         if v is None:
             return None
         if not sym.is_intlike(v):
             raise PyRaise(eng.make_exc(TypeError, 'slice indices must be integers'))
         if isinstance(v, SymBool):
             v = sym.lift(v)
-        if not (isinstance(v, int) and v >= 0):
-            if not eng.prove(sym.zb(cmp('>=', v, 0))):
-                raise OutOfSubset('possibly negative bytearray slice %s' % what)
-        return ite(cmp('>', v, self.length), self.length, v)
+        pos = ite(cmp('>', v, self.length), self.length, v)
+        if (isinstance(v, int) and v >= 0) or eng.prove(sym.zb(cmp('>=', v, 0))):
+            return pos
+        # negative index: counted from the end, clamped at 0  (PySlice_AdjustIndices)
+        back = sym.add(v, self.length)
+        return ite(cmp('<', v, 0), ite(cmp('<', back, 0), 0, back), pos)
 
     def _bounds(self, eng, k):
         if k.step is not None:
